@@ -58,6 +58,69 @@ def _run_one(args):
         }
 
 
+def _child(w, conn):
+    try:
+        conn.send(_run_one(w))
+    except BaseException:
+        conn.send({"task": f"{w[0]}[{w[1]}]", "kind": "?", "wall": 0, "specs": [], "extracted": [],
+                   "results": [{"name": f"{w[0]}[{w[1]}].crash", "status": "error", "detail": traceback.format_exc()[-1500:], "kind": "?"}]})
+    finally:
+        conn.close()
+
+
+def run_tasks(work, jobs, tier):
+    """One forked process per task, at most `jobs` at a time, each under a wall-clock limit.  A solver
+    that does not come back from a cancelled query (seen with z3 on quantified goals) would otherwise
+    hang the whole check: a task over its limit is killed and retried once with another seed; if it
+    times out again its obligations are reported as undecided (never as a violation)."""
+    limit = float(os.environ.get("PYVC_TASK_TIMEOUT", "420" if tier == "quick" else "3000"))
+    ctx = mp.get_context("fork")
+    pending = [(w, 0) for w in work]
+    running = {}  # idx -> (proc, conn, t0, w, attempt)
+    done = {}
+    while pending or running:
+        while pending and len(running) < jobs:
+            w, attempt = pending.pop(0)
+            a, b = ctx.Pipe(duplex=False)
+            ww = w if attempt == 0 else (w[0], w[1], w[2], w[3] + 7919 * attempt)
+            p = ctx.Process(target=_child, args=(ww, b), daemon=True)
+            p.start()
+            b.close()
+            running[w[1]] = (p, a, time.time(), w, attempt)
+        time.sleep(0.05)
+        for idx in list(running):
+            p, conn, t0, w, attempt = running[idx]
+            if conn.poll():
+                try:
+                    done[idx] = conn.recv()
+                except EOFError:
+                    done[idx] = {"task": f"{w[0]}[{idx}]", "kind": "?", "wall": time.time() - t0, "specs": [], "extracted": [],
+                                 "results": [{"name": f"{w[0]}[{idx}].crash", "status": "error", "detail": "worker died without a result", "kind": "?"}]}
+                p.join(5)
+                conn.close()
+                del running[idx]
+            elif not p.is_alive():
+                p.join(1)
+                if conn.poll():
+                    continue
+                done[idx] = {"task": f"{w[0]}[{idx}]", "kind": "?", "wall": time.time() - t0, "specs": [], "extracted": [],
+                             "results": [{"name": f"{w[0]}[{idx}].crash", "status": "error", "detail": f"worker exited with code {p.exitcode} without a result", "kind": "?"}]}
+                conn.close()
+                del running[idx]
+            elif time.time() - t0 > limit:
+                p.kill()
+                p.join(5)
+                conn.close()
+                del running[idx]
+                if attempt == 0:
+                    pending.append((w, 1))
+                else:
+                    done[idx] = {"task": f"{w[0]}[{idx}]", "kind": "?", "wall": time.time() - t0, "specs": [], "extracted": [],
+                                 "results": [{"name": f"{w[0]}[{idx}].timeout", "status": "unknown", "kind": "?",
+                                              "detail": f"task exceeded its wall-clock limit of {limit:.0f} s twice (solver did not return)"}]}
+    return [done[i] for i in sorted(done)]
+
+
 def load_known():
     """known_findings.json plus per-property fragments known_findings.d/*.json (all committed,
     never written at run time)."""
@@ -111,12 +174,7 @@ def run_property(pid, tier="quick", seed=0, jobs=None):
     meta = getattr(mod, "META", {})
     jobs = jobs or min(16, max(1, len(tasks)))
     work = [(pid, i, tier, seed) for i in range(len(tasks))]
-    if jobs == 1 or len(tasks) == 1:
-        outs = [_run_one(w) for w in work]
-    else:
-        ctx = mp.get_context("fork")
-        with ctx.Pool(jobs) as pool:
-            outs = pool.map(_run_one, work, chunksize=1)
+    outs = run_tasks(work, jobs, tier)
     if os.environ.get("PYVC_TIMING"):
         for o in sorted(outs, key=lambda o: -o.get("wall", 0))[:8]:
             print(f"TIMING {o['task']}: {o.get('wall', 0):.1f}s, {len(o['results'])} results")
